@@ -56,6 +56,9 @@ func Main(args []string) int {
 	if v := os.Getenv("VCHECK_OUT"); v != "" {
 		OutDir = v
 	}
+	if v := os.Getenv("VCHECK_VERIF"); v != "" {
+		VerifDir = v // frozen copy of contracts/trusted and known_findings.json for a sweep
+	}
 	switch args[0] {
 	case "list":
 		P, err := Load(RepoDir, "verif")
@@ -209,12 +212,12 @@ func cmdVerify(args []string) int {
 			continue
 		}
 		n, ok := 0, 0
+		for _, o := range VacuousCanaries(r) {
+			fmt.Printf("  VACUOUS %s (%s)\n", o.Name, o.Pos)
+			bad++
+		}
 		for _, o := range r.Obls {
 			if o.Canary {
-				if o.Result == "unsat" {
-					fmt.Printf("  VACUOUS %s (%s)\n", o.Name, o.Pos)
-					bad++
-				}
 				continue
 			}
 			n++
